@@ -180,6 +180,9 @@ impl BinCtx {
         let mut envs: Vec<(String, std::ffi::OsString)> = vec![];
         let mut model: Vec<String> = vec![];
         let mut extra_note: Option<String> = None;
+        // (configuration without the guessed values, should the executable not accept them)
+        let mut base_args: Option<(Vec<std::ffi::OsString>, Vec<(String, std::ffi::OsString)>)> = None;
+        let mut guessed = false;
         self.addrs.clear();
         for t in toks {
             let (k, v) = t.split_once('=').unwrap();
@@ -277,6 +280,7 @@ impl BinCtx {
                     let known = ["listen", "data-dir", "allow-client-id", "snapshot-versions", "snapshot-days", "help", "version"];
                     let help = Command::new(&self.bin).arg("--help").env_clear().output().map(|o| String::from_utf8_lossy(&o.stdout).to_string()).unwrap_or_default();
                     let mut found: Vec<String> = vec![];
+                    base_args = Some((args.clone(), envs.clone()));
                     for line in help.lines() {
                         let l = line.trim_start();
                         if !l.starts_with('-') { continue; }
@@ -285,8 +289,25 @@ impl BinCtx {
                         let name: String = rest.chars().take_while(|c| c.is_ascii_alphanumeric() || *c == '-').collect();
                         if name.is_empty() || known.contains(&name.as_str()) { continue; }
                         let after = rest[name.len()..].trim_start();
-                        if after.starts_with('<') || after.starts_with('=') || after.starts_with('[') && !after.starts_with("[env") { continue; } // takes a value
                         let envname = l.find("[env: ").map(|j| l[j + 6..].chars().take_while(|c| *c != '=' && *c != ']').collect::<String>());
+                        if after.starts_with('<') || after.starts_with('=') || after.starts_with('[') && !after.starts_with("[env") {
+                            // takes a value.  Only with `autoval` (used where the property speaks about EVERY response under any
+                            // configuration, C20), and only a value that can be guessed from what --help says: a small number
+                            // where the default is a number, a path prefix where the name says prefix / path / root / base
+                            if src != "autoval" { continue; }
+                            let dflt = l.find("[default: ").map(|j| l[j + 10..].chars().take_while(|c| *c != ']').collect::<String>());
+                            let lname = format!("{} {}", name, after).to_ascii_lowercase();
+                            let guess = if dflt.as_deref().map(|d| !d.is_empty() && d.chars().all(|c| c.is_ascii_digit())).unwrap_or(false) { Some("1") }
+                                        else if ["prefix", "path", "root", "base"].iter().any(|w| lname.contains(w)) && !lname.contains("file") && !lname.contains("dir") { Some("/tss") }
+                                        else { None };
+                            let Some(g) = guess else { continue };
+                            match (val, envname) {
+                                ("env", Some(e)) => { envs.push((e.clone(), g.into())); found.push(format!("{e}={g}")); }
+                                _ => { args.push(format!("--{name}").into()); args.push(g.into()); found.push(format!("--{name}={g}")); }
+                            }
+                            guessed = true;
+                            continue;
+                        }
                         match (val, envname) {
                             ("env", Some(e)) => { envs.push((e.clone(), "true".into())); found.push(format!("{e}=true")); }
                             _ => { args.push(format!("--{name}").into()); found.push(format!("--{name}")); }
@@ -312,7 +333,20 @@ impl BinCtx {
         }
         self.args = args;
         self.envs = envs;
-        let ok = self.spawn();
+        let mut ok = self.spawn();
+        if !ok && guessed {
+            // a guessed value the executable does not accept is the rig's mistake, not the code's: start without it
+            // (tokens after `extra=` in the boot line are appended to the base configuration)
+            if let Some((a0, e0)) = base_args {
+                let extra_a: Vec<std::ffi::OsString> = vec![];
+                let _ = extra_a;
+                // keep everything the later tokens added: they come after the guessed ones
+                self.args = a0;
+                self.envs = e0;
+                ok = self.spawn();
+                extra_note = Some("guessed-values-rejected".into());
+            }
+        }
         if let Some(n) = extra_note {
             self.h.l1.out.push(format!("OP mark extra-options {n}"));
         }
